@@ -833,7 +833,18 @@ fn oracle_c02_raw(run: &Run) -> Option<(String, String)> {
             continue;
         }
         if r.complete && r.body != e.body {
-            let sig = if matches!(&h.body, BodyKind::Custom(BodySize::Stream, t) if t.contains(&BodyTok::Chunk(0))) && r.body.len() < e.body.len() {
+            let cut_by_parse_error = r.framing == Framing::Close
+                && !case.cfg.hc
+                && r.body.len() < e.body.len()
+                && e.body.starts_with(&r.body)
+                && case.reqs.iter().skip(i + 1).any(|q| q.malformed);
+            let sig = if cut_by_parse_error {
+                // the server itself cut a close-delimited body short: with half-close disallowed a
+                // malformed request pipelined behind the one being answered aborts the connection
+                // (READ_DISCONNECT is treated like a lost peer) — the client sees a complete-looking
+                // short message (close-delimited variant of abort-on-pipelined-parse-error)
+                "close-delimited-cut-by-pipelined-parse-error"
+            } else if matches!(&h.body, BodyKind::Custom(BodySize::Stream, t) if t.contains(&BodyTok::Chunk(0))) && r.body.len() < e.body.len() {
                 "empty-chunk-truncates"
             } else if !r.body.is_empty() && b"HTTP/1.".starts_with(&r.body[..r.body.len().min(7)]) {
                 // the declared body is missing and the next response head sits in its place
